@@ -35,6 +35,7 @@ extern "C" {
     fn cshim_now(ctx: *mut c_void, r: *mut CshimResult);
     fn cshim_close(ctx: *mut c_void) -> i64;
     fn cshim_constants(out: *mut i64);
+    fn cshim_open_null_err(path: *const c_char) -> i64;
 }
 
 /// keep the FFI crate's exported symbols alive for the C shim
@@ -250,6 +251,16 @@ fn synthetic_thread(cfg: BCfg, path: PathBuf, st: SharedB, world: SharedWorld, s
         let tick = cfg.tick_ns.max(1);
         for _case in 0..cfg.synthetic_cases {
             verif_rt::sleep_ns(*r.pick(&[1i64, 1_000, 999_999, 1_000_000, 123_456_789, 7 * SEC, 3_600 * SEC]) + r.range(0, 1_000_000_000));
+            // land the monotonic reading on / just before a whole second: as_of values just above it
+            // then have a tiny tv_nsec, and with a 1 ns tick the blur window crosses the second boundary
+            let mut before_second: i64 = 0;
+            if r.chance(20) {
+                let now0 = verif_rt::now_ns();
+                let delta = if tick == 1 { *r.pick(&[0i64, 1, 400, 998]) } else { 0 };
+                let next = (now0.div_euclid(SEC) + 1) * SEC - delta;
+                verif_rt::sleep_until(next);
+                before_second = delta;
+            }
             let now = verif_rt::now_ns();
             let mono = now.div_euclid(tick) * tick;
             let rs = r.range(5, 5000) * SEC + r.range(0, 999_999_999);
@@ -269,9 +280,13 @@ fn synthetic_thread(cfg: BCfg, path: PathBuf, st: SharedB, world: SharedWorld, s
                 10 => -r.range(1, 2_000),
                 _ => r.range(0, 2_000 * SEC),
             };
+            let age = if before_second > 0 && r.chance(60) { -(before_second + *r.pick(&[1i64, 1, 300])).min(999).max(before_second + 1) } else { age };
             let as_of = mono as i128 - age as i128;
             let void = as_of + span as i128;
-            let bound: i64 = match r.below(7) {
+            let bound: i64 = match r.below(8) {
+                // (negative bounds are outside the meaningful range of C05; they are published so that
+                // the libraries can be compared on every value the i64 field can carry, C17)
+                7 => -*r.pick(&[1i64, 1_000, 3_000_000_000]),
                 0 => 0,
                 1 => 1,
                 2 => r.range(0, 1_000_000),
@@ -379,10 +394,21 @@ fn pairs_thread(cfg: BCfg, path: PathBuf, st: SharedB, seed: u64) {
                     Ok(mut c) => guarded_now(&mut c).0,
                     Err(e) => e,
                 };
+                let mut c_opened = true;
                 let b = match Client::open(3, &path) {
                     Ok(mut c) => guarded_now(&mut c).0,
-                    Err(e) => e,
+                    Err(e) => {
+                        c_opened = false;
+                        e
+                    }
                 };
+                // the header allows a NULL error pointer on open
+                use std::os::unix::ffi::OsStrExt;
+                let cp = CString::new(path.as_os_str().as_bytes()).unwrap();
+                let null_ok = verif_rt::nokill(|| unsafe { cshim_open_null_err(cp.as_ptr()) }) == 1;
+                if null_ok != c_opened {
+                    st.lock().unwrap().out.violate(&["C17"], "open_with_null_err_differs", format!("opened={c_opened}"), format!("clockbound_open(path, NULL) {} while clockbound_open(path, &err) {}", if null_ok { "succeeded" } else { "returned NULL" }, if c_opened { "succeeded" } else { "failed" }));
+                }
                 (a, b)
             });
             let mut s = st.lock().unwrap();
